@@ -4,6 +4,7 @@
 
 pub mod models;
 pub mod spec;
+pub mod spec_json;
 pub mod stubs;
 
 #[cfg(all(kani, feature = "c02"))]
@@ -30,3 +31,5 @@ mod c09;
 mod c05;
 #[cfg(all(kani, feature = "c07"))]
 mod c07;
+#[cfg(all(kani, feature = "c08"))]
+mod c08;
